@@ -346,18 +346,21 @@ theorem C14_locmax_clamped_spec (isMin : Bool) (A : Img Int) (nb : List (List In
     (hs : ∀ d ∈ A.shape, 0 < d) : locAt isMin A nb p = locClampedSpecAt isMin A nb p :=
   locAt_eq_clamped isMin A nb p hs
 
-/-- **the executable specification `regSpec` = `Regional`** (partial: the fixed point is a hypothesis). The
-driver prints, next to the model of `regmax`/`regmin`, the array `regSpec`: start from the pixels with a
-strictly better neighbour inside the image and repeat `size` times "a pixel is rejected when an equal-valued
-neighbour (either direction) is rejected". For every symmetric neighbourhood: a rejected pixel is **never**
-regional (soundness, unconditional: `regSpecBad_sound`); and when one more round changes nothing
-(`regSpecFixed`, which the driver evaluates and prints as `fix=1`; the harness reports `fix=0` as a broken
-correspondence) the accepted pixels are exactly the regional ones. Missing: a proof that `size` rounds always
-reach the fixed point. -/
-theorem C14_regspec_eq_regional_partial (isMin : Bool) (A : Img Int) (nb : List (List Int)) (hn : SymNb A nb)
-    (hfix : regSpecFixed isMin A nb = true) (q : List Int) (hq : inside A.shape q = true) :
-    (regSpec isMin A nb).getD (ravelI A.shape q) false = true ↔ Regional isMin A nb q :=
-  regSpec_iff hn hfix q hq
+/-- **the executable specification `regSpec` = `Regional`.** The driver prints, next to the model of
+`regmax`/`regmin`, the array `regSpec`: start from the pixels with a strictly better neighbour inside the
+image and repeat `size` times "a pixel is rejected when an equal-valued neighbour (either direction) is
+rejected". For every image of every rank and shape and every symmetric neighbourhood: (1) `size` rounds
+always reach the fixed point — one more round changes nothing (`regSpecFixed`, which the driver also evaluates
+and prints as `fix=1`): the rounds only ever set flags, a round that changes the array sets at least one more
+of its `size` flags; (2) the accepted pixels are exactly the regional ones (`Regional`: every pixel of the
+plateau has no strictly better neighbour inside the image). Together with `C14_regional_eq_spec` the two arrays
+the driver prints for `reg` are equal for symmetric star-shaped neighbourhoods — by two different algorithms
+(stack flood vs. fixed-point iteration). -/
+theorem C14_regspec_eq_regional (isMin : Bool) (A : Img Int) (nb : List (List Int)) (hn : SymNb A nb) :
+    regSpecFixed isMin A nb = true ∧
+    ∀ q, inside A.shape q = true →
+      ((regSpec isMin A nb).getD (ravelI A.shape q) false = true ↔ Regional isMin A nb q) :=
+  ⟨regSpecFixed_always isMin, fun q hq => regSpec_iff hn (regSpecFixed_always isMin) q hq⟩
 
 /-- **plateaus of global extrema are marked, wherever they lie** (specialising `C14_regional_eq_spec`): for
 every cross / disk / odd box of the rank of the image and every pixel `q` inside the image whose value no
